@@ -19,6 +19,9 @@ DEFS = {"Base": {"type": "object", "properties": {"c": {"type": "boolean"}}, "re
         "Closed": {"type": "object", "properties": {"a": INT}, "additionalProperties": False},
         "BaseAp": {"type": "object", "properties": {"c": {"type": "boolean"}}, "required": ["c"], "additionalProperties": INT},
         "En": {"type": "string", "enum": ["x", "y"]},
+        # definitions that are themselves allOf groups over the shared Base (a diamond when two of them meet)
+        "Named": {"allOf": [{"$ref": "#/definitions/Base"}, {"type": "object", "properties": {"a": INT}, "required": ["a"]}]},
+        "Aged": {"allOf": [{"$ref": "#/definitions/Base"}, {"type": "object", "properties": {"b": STR}, "required": ["b"]}]},
         "PQ": {"oneOf": [{"type": "object", "properties": {"p": STR}, "required": ["p"]}, {"type": "object", "properties": {"q": INT}, "required": ["q"]}]}}
 FRAGS = {
     "a_opt": {"type": "object", "properties": {"a": INT}},
@@ -68,6 +71,11 @@ FRAGS = {
 # plain / enumerated string fragments only
 FMT_FRAGS = {"fmt_ipv6": {"type": "string", "format": "ipv6"}, "fmt_date": {"type": "string", "format": "date"}, "fmt_datetime": {"type": "string", "format": "date-time"},
              "fmt_unknown": {"type": "string", "format": "wibble"}, "fmt_only_ip": {"format": "ip"}}
+# operands that are allOf GROUPS (in-line or behind a $ref): paired among themselves and with the basic object fragments
+GROUP_FRAGS = {"ref_named": {"$ref": "#/definitions/Named"}, "ref_aged": {"$ref": "#/definitions/Aged"},
+               "grp_a_b": {"allOf": [{"type": "object", "properties": {"a": INT}}, {"type": "object", "properties": {"b": STR}, "required": ["b"]}]},
+               "grp_extra_c": {"allOf": [{"type": "object", "properties": {"extra": INT}, "required": ["extra"]}, {"$ref": "#/definitions/Base"}]}}
+GROUP_WITH = ["ref_named", "ref_aged", "grp_a_b", "grp_extra_c", "a_req", "b_req", "ref_base", "ab_closed", "extra_req"]
 FMT_GROUP = ["fmt_ip", "fmt_ipv4", "fmt_ipv6", "fmt_uuid", "fmt_date", "fmt_datetime", "fmt_unknown", "fmt_only_ip", "str", "str_enum_ab"]
 QUICK = ["a_opt", "a_req", "b_req", "ab_closed", "ref_base", "ref_closed", "extra_req", "b_enum_xy", "b_enum_yz", "str_enum_ab", "enum_bc"]
 TRIPLE = ["a_opt", "a_req", "a_str", "b_req", "ab_closed", "ref_base", "extra_req", "b_enum_xy", "b_enum_yz", "ap_str", "oneof_pq", "req_a_only"]
@@ -108,6 +116,8 @@ def cases(tier, seed):
     combos = list(itertools.permutations(names, 2))
     FRAGS.update(FMT_FRAGS)
     combos += [c for c in itertools.permutations(FMT_GROUP, 2) if c not in set(combos)]
+    FRAGS.update(GROUP_FRAGS)
+    combos += [c for c in itertools.permutations(GROUP_WITH, 2) if c not in set(combos)]
     combos += list(itertools.permutations(TRIPLE if tier != "quick" else TRIPLE_QUICK, 3))
     out = lifted_cases(tier)
     for combo in combos:
